@@ -26,7 +26,7 @@ RULE = ("scenario = 1..3 concurrent clients (real send_initialize with a generat
         "latencies; non-trivial = at least one requested version outside the server's supported list, or >= 2 handshakes interleaved")
 PROBES = ["requested_unsupported_wellformed", "requested_illformed", "requested_nonstring", "requested_absent", "handshakes_interleaved",
           "real_client_mismatch", "real_client_counter_proposal", "supported_echoed"]
-TIERS = {"quick": {"runs": 3000, "wall": 40.0}, "thorough": {"runs": 150000, "wall": 540.0}}
+TIERS = {"quick": {"runs": 20000, "wall": 45.0}, "thorough": {"runs": 1500000, "wall": 560.0}}
 ASSUMPTIONS = ["messages cross the in-memory network serialised (model_dump_json(exclude_none)) and re-parsed (parse_message), as over a real transport"]
 SHRINK_LISTS = ["clients"]
 
